@@ -7,6 +7,8 @@ open FeedVerif.Proto
 structure DSt where
   s : MSt := {}
   loose : Bool := false
+  resolveOn : Bool := true
+  sanitizeOn : Bool := true
   dead : Option Str := none      -- set once the stream left the modelled domain
 
 def encV : V → String
@@ -14,12 +16,13 @@ def encV : V → String
   | .t none => "t:-"
   | .t (some l) => "t:" ++ ",".intercalate (l.map toString)
   | .d kv => "d:(" ++ ",".intercalate ((kv.map fun (k, v) => encChars k ++ "=" ++ encChars v).toArray.qsort (· < ·)).toList ++ ")"
+  | .det kv => "d:(" ++ ",".intercalate ((kv.map fun (k, v) => encChars k ++ "=" ++ (match v with | some x => encChars x | none => "~")).toArray.qsort (· < ·)).toList ++ ")"
 
 def encD (d : D) : String :=
   "{" ++ ";".intercalate ((d.map fun (k, v) => encChars k ++ "=" ++ encV v).toArray.qsort (· < ·)).toList ++ "}"
 
 def encState (s : MSt) : String :=
-  s!"{s.c.depth} {s.stack.length} {if s.c.inentry then 1 else 0} {s.c.entries.length} {enc s.c.base.baseuri} {encOpt s.c.base.lang}"
+  s!"{s.c.depth} {s.stack.length} {if s.c.inentry then 1 else 0} {s.c.entries.length} {enc s.c.base.baseuri} {encOpt s.c.base.lang} {if s.c.incontent then 1 else 0}"
 
 def dump (s0 : MSt) : String :=
   let s := s0.c
@@ -48,14 +51,14 @@ def apply (d : DSt) (o : Ops) (ev : MEv) : DSt × String :=
 def driverStep (d : DSt) (ws : List String) : DSt × String :=
   let baseOps (r2 r1 : String) : Base.Ops := { safe2 := fun _ _ => r2, safe1 := fun _ => r1, join := fun _ r => r }
   match ws with
-  | ["reset", l, b, lang] =>
+  | ["reset", l, b, lang, ron, son] =>
     match dec b, decOpt lang with
     | some b, some lang =>
       let feed : D := match lang with
         | some l => if l.isEmpty then [] else [(S "language", V.s (replaceAll ['_'] ['-'] l.toList))]
         | none => []
       let s : MSt := { c := { feed := feed, base := ⟨b, lang, [], []⟩ } }
-      ({ s := s, loose := l == "1", dead := none }, encState s)
+      ({ s := s, loose := l == "1", dead := none, resolveOn := ron == "1", sanitizeOn := son == "1" }, encState s)
     | _, _ => (d, "bad-op")
   | "start" :: tag :: r2 :: r1 :: attrs =>
     match decChars tag, dec r2, dec r1, attrs.mapM decKV with
@@ -66,7 +69,16 @@ def driverStep (d : DSt) (ws : List String) : DSt × String :=
   | "stop" :: tag :: joins0 =>
     -- optional trailing `D:<tuple|->`: what the real `_parse_date` answered for this element's text
     let dates := joins0.filter (·.startsWith "D:")
-    let joins := joins0.filter fun f => !f.startsWith "D:"
+    let joins := joins0.filter fun f => f.startsWith "J:"
+    -- stage 2: what the real post-processing steps of `pop()` answered while this end tag was processed (one call each at most)
+    let field (pfx : String) : Option String := (joins0.find? (·.startsWith pfx)).map fun f => (f.drop 2).toString
+    let strField (pfx : String) : Str := match field pfx with
+      | some v => (decChars v).getD (S "<bad-field>")
+      | none => S "<oracle-miss>"
+    let looks : Bool := field "L:" == some "1"
+    let b64v : Option Str := match field "B:" with
+      | some v => if v == "-" then none else decChars v
+      | none => some (S "<oracle-miss>")
     let pd : Option (List Int) := match dates with
       | d0 :: _ => let v := (d0.drop 2).toString; if v == "-" then none else (v.splitOn ",").mapM parseInt
       | [] => none
@@ -77,7 +89,9 @@ def driverStep (d : DSt) (ws : List String) : DSt × String :=
         | [u, r] => (match decChars u, decChars r with | some u, some r => some (u, r) | _, _ => none)
         | _ => none
       let join (_b u : Str) : Str := match tbl.find? (·.1 == u) with | some p => p.2 | none => S "<oracle-miss>"
-      apply d { base := baseOps "" "", join := join, fix := id, loose := d.loose, parseDate := fun _ => pd } (.stop tag)
+      apply d { base := baseOps "" "", join := join, fix := id, loose := d.loose, parseDate := fun _ => pd,
+                looksHtml := fun _ => looks, resolveMarkup := fun _ _ _ => strField "R:", sanitize := fun _ _ => strField "Z:",
+                b64 := fun _ => b64v, decodeEnt := fun _ _ => strField "E:", resolveOn := d.resolveOn, sanitizeOn := d.sanitizeOn } (.stop tag)
     | none => (d, "bad-op")
   | ["data", t] =>
     match decChars t with
